@@ -126,9 +126,17 @@ def run(ctx):
                 g = False
                 for (sb, taken) in flow.guards(pe, c.bb):
                     cd = flow.cond_of(pe, sb)
-                    if cd.kind == "call" and cd.call.name == "core::option::Option::is_none":
+                    # `line().is_none()` on its true side, `line().is_some()` on its false side (an early return), or the
+                    # None arm of a match on `line()`
+                    if cd.kind == "call" and cd.call.name in ("core::option::Option::is_none", "core::option::Option::is_some"):
                         if any(o.kind == "call" and o.call.name == need[0] for o in flow.origins(pe, cd.call.args[0])):
-                            g = flow.bool_true_labels(taken) == (not cd.neg)
+                            side = flow.bool_true_labels(taken)
+                            if side is not None:
+                                truth = (side != cd.neg)
+                                g = g or (truth == cd.call.name.endswith("is_none"))
+                    elif cd.kind == "discr" and (cd.adt or "").endswith("option::Option"):
+                        if any(o.kind == "call" and o.call.name == need[0] for o in flow.origins(pe, {"cp": cd.place})):
+                            g = g or set(taken) == {"0"}
                 ctx.ob("C14.F1.location-set-only-when-missing", "%s%s" % (tag, c.name.split("::")[-1]), g,
                        "an already located error (inner template) would be overwritten", pe.where(c.bb))
         # ---- F1b parser entry points
